@@ -33,6 +33,6 @@ def run(tier, replay=None):
     v.coverage["zones"] = len(zs)
     v.coverage["midnight_gap_days_found"] = sum((e or {}).get("midnight_gap_days", 0) for e in m["extras"])
     v.coverage["rule"] = ("per zone (quick: 25 zones incl. every known midnight-gap zone family, fixed-offset extremes, half-hour zones; thorough: every TZif zone): all days whose local midnight is skipped 1900-2100, their neighbours, entirely skipped days, the days of ordinary offset changes (quick: the latest 24 + 24 random per zone; thorough: all), boundaries 0001/9999, random days - "
-                          "through ToDate, ParseDate, wire decode, JSON decode, String, SystemDate decode, and five date-times per day (00:00:00, 12:00:00, 23:59:59, two random) through date-time decode and the GetStatus date+time recombination. distinct = (zone, operation, civil value)")
+                          "through ToDate, ParseDate, wire decode, JSON decode, String, SystemDate decode, and five date-times per day (00:00:00, 12:00:00, 23:59:59, two random) through date-time decode and the date+time recombination of GetStatus and of the event listener. distinct = (zone, operation, civil value)")
     v.coverage["checker_cmd"] = "tlc Trace_Pure (CivilValue, CivilWire)"
     return v.finish(write_evidence=replay is None)
